@@ -1,5 +1,5 @@
 use crate::sync::{ResourceSignature, ResourceType};
-use shuttle_engine::future::batch_semaphore::{BatchSemaphore, Fairness};
+use shuttle_engine::future::batch_semaphore::{BatchSemaphore, Fairness, TryAcquireError};
 use shuttle_engine::runtime::execution::ExecutionState;
 use shuttle_engine::runtime::task::{TaskId, TaskSet};
 use shuttle_engine::runtime::thread;
@@ -278,8 +278,20 @@ impl<T: ?Sized> RwLock<T> {
             return false;
         }
 
-        // Semaphore is never closed, so an error here is always `NoPermits`.
-        let mut acquired = self.semaphore.try_acquire(typ.num_permits()).is_ok();
+        let mut acquired = match self.semaphore.try_acquire(typ.num_permits()) {
+            Ok(()) => true,
+            Err(TryAcquireError::NoPermits) => false,
+            // The semaphore is closed once a guard has been dropped by a panicking holder (poisoning).
+            // As in `lock`, the holder bookkeeping takes over from there.
+            Err(TryAcquireError::Closed) => {
+                let state = self.state.borrow();
+                match (typ, &state.holder) {
+                    (_, RwLockHolder::None) => true,
+                    (RwLockType::Read, RwLockHolder::Read(_)) => true,
+                    _ => false,
+                }
+            }
+        };
         if acquired {
             state = self.state.borrow_mut();
             match (typ, &mut state.holder) {
